@@ -1,26 +1,36 @@
-"""Run pyvc contracts (in worker processes) and record aggregated obligations in a Report."""
+"""Run pyvc contracts and record aggregated obligations in a Report.
+
+Phase 1 (one process per contract): symbolic exploration of the real function -> pending obligations, each
+serialised as an SMT-LIB query (hypotheses + negated goal).
+Phase 2 (process pool over all queries): z3 5.1 in-process with a timeout; z3's `unknown`s go to the cvc5 CLI.
+A query is `discharged` on unsat, `refuted` on sat, `unknown` otherwise.
+"""
 from __future__ import annotations
 
+import hashlib
 import importlib
 import os
+import subprocess
+import tempfile
 import time
 import traceback
-from concurrent.futures import ProcessPoolExecutor, as_completed
+from concurrent.futures import ProcessPoolExecutor
 
 from .core import Ob, Report, REPO, use_repo
 
+Z3_MS = int(os.environ.get("PYVC_Z3_TIMEOUT_MS", "10000"))
+CVC5_MS = int(os.environ.get("PYVC_CVC5_TIMEOUT_MS", "10000"))
 
-def _verify_one(spec):
-    """Worker: spec = (module, class_name, oid).  Returns a plain dict."""
+
+def _explore(spec):
     mod, cls, oid = spec
     t0 = time.time()
-    out = {"oid": oid, "contract": f"{mod}.{cls}", "obs": [], "error": None, "unsupported": None, "stats": {}}
+    out = {"oid": oid, "contract": f"{mod}.{cls}", "queries": [], "error": None, "unsupported": None, "stats": {}}
     try:
         use_repo()
         import z3
         from pyvc.verifier import Engine
         from pyvc.engine import Unsupported
-        from pyvc import smt
         C = getattr(importlib.import_module(mod), cls)
         c = C()
         eng = Engine()
@@ -32,39 +42,27 @@ def _verify_one(spec):
         out["target"] = c.target
         out["where"] = f"{os.path.relpath(fn.__code__.co_filename, REPO)}:{fn.__code__.co_firstlineno}"
         out["stats"] = stats
-        # vacuity guard: hypotheses of every path must be satisfiable
-        agg = {}
-        seen_paths = {}
+        seen_paths = set()
         for o in obs:
-            key = o.name
-            a = agg.setdefault(key, {"name": key, "instances": 0, "status": "discharged", "ms": 0.0, "backend": set(),
-                                     "model": None, "detail": o.detail, "line": o.line, "vacuous": 0})
-            a["instances"] += 1
-            if o.path not in seen_paths:
-                st, m, be, ms = smt.check_sat(o.hyps, 5000, want_model=False)
-                seen_paths[o.path] = st
             goal = o.goal
-            if z3.is_true(z3.simplify(goal)):
-                a["backend"].add("simplify")
-                continue
-            st, m, be, ms = smt.prove(o.hyps, goal)
-            a["ms"] += ms
-            a["backend"].add(be)
-            if st == "discharged" and seen_paths[o.path] == "unsat":
-                a["vacuous"] += 1
-            if st == "refuted":
-                a["status"] = "refuted"
-                if a["model"] is None:
-                    a["model"] = {"path": o.path, "model": smt.model_to_dict(m), "goal": str(goal)[:600]}
-            elif st == "unknown" and a["status"] == "discharged":
-                a["status"] = "unknown"
-                a["model"] = str(m)[:300]
-        for a in agg.values():
-            a["backend"] = "+".join(sorted(a["backend"]))
-            if a["vacuous"] and a["status"] == "discharged" and a["vacuous"] == a["instances"]:
-                a["status"] = "unknown"
-                a["model"] = "vacuous: hypotheses unsatisfiable on every path reaching this obligation"
-        out["obs"] = list(agg.values())
+            trivially = z3.is_true(z3.simplify(goal))
+            s = z3.Solver()
+            for h in o.hyps:
+                s.add(h)
+            q = {"name": o.name, "path": o.path, "detail": o.detail, "line": o.line, "trivial": trivially,
+                 "goal": str(goal)[:500]}
+            if not trivially:
+                s.add(z3.Not(goal))
+                q["smt2"] = s.to_smt2()
+            out["queries"].append(q)
+            if o.path not in seen_paths:
+                # vacuity guard: the hypotheses of each path must be satisfiable
+                seen_paths.add(o.path)
+                s2 = z3.Solver()
+                for h in o.hyps:
+                    s2.add(h)
+                out["queries"].append({"name": "__path_feasible__", "path": o.path, "detail": "", "line": 0,
+                                       "trivial": False, "smt2": s2.to_smt2(), "goal": "hypotheses satisfiable", "vac": True})
         out["paths_outcomes"] = [o[0] if o else "cut" for o in outcomes]
     except Exception:
         out["error"] = traceback.format_exc()
@@ -72,18 +70,72 @@ def _verify_one(spec):
     return out
 
 
-def run_contracts(report: Report, specs, workers=None):
+def _solve(smt2):
+    """Returns (status sat|unsat|unknown, info, backend, ms)."""
+    import z3
+    t0 = time.time()
+    try:
+        s = z3.Solver()
+        s.set("timeout", Z3_MS)
+        s.from_string(smt2)
+        r = s.check()
+        ms = (time.time() - t0) * 1000
+        if r == z3.unsat:
+            return "unsat", None, "z3-" + z3.get_version_string(), ms
+        if r == z3.sat:
+            m = s.model()
+            info = {}
+            try:
+                for d in m.decls()[:40]:
+                    info[d.name()] = str(m[d])[:160]
+            except Exception:
+                pass
+            return "sat", info, "z3-" + z3.get_version_string(), ms
+        reason = s.reason_unknown()
+    except Exception as e:
+        reason = f"z3 error {e!r}"
+    # cvc5 CLI on the same text (cannot parse z3 lambdas: then it stays unknown)
+    try:
+        if "(lambda" in smt2:
+            raise RuntimeError("query contains lambda terms (cvc5 1.0.3 CLI needs HO logic); skipped")
+        with tempfile.NamedTemporaryFile("w", suffix=".smt2", delete=False) as f:
+            f.write("(set-logic ALL)\n" + smt2 + "\n(check-sat)\n" if "(check-sat)" not in smt2 else "(set-logic ALL)\n" + smt2)
+            path = f.name
+        try:
+            p = subprocess.run(["/usr/bin/cvc5", "--lang=smt2", f"--tlimit={CVC5_MS}", "--strings-exp", path],
+                               capture_output=True, text=True, timeout=CVC5_MS / 1000 + 5)
+            first = (p.stdout.strip().splitlines() or [""])[0].strip()
+        finally:
+            os.unlink(path)
+        ms = (time.time() - t0) * 1000
+        if first in ("sat", "unsat"):
+            return first, ("cvc5 reports sat (no model extracted)" if first == "sat" else None), "cvc5-1.0.3-cli", ms
+        return "unknown", f"z3: {reason}; cvc5: {first or p.stderr[:120]}", "z3+cvc5", ms
+    except Exception as e:
+        return "unknown", f"z3: {reason}; cvc5: {e}", "z3", (time.time() - t0) * 1000
+
+
+def run_contracts(report: Report, specs, workers=16):
     """specs: list of (module, class_name, oid). Adds one Ob per (contract, obligation name)."""
-    workers = workers or min(16, max(1, len(specs)))
-    results = []
-    if len(specs) == 1 or os.environ.get("VERIF_SERIAL"):
-        results = [_verify_one(s) for s in specs]
-    else:
-        with ProcessPoolExecutor(max_workers=workers) as ex:
-            futs = [ex.submit(_verify_one, s) for s in specs]
-            for f in futs:
-                results.append(f.result())
-    for r in results:
+    serial = bool(os.environ.get("VERIF_SERIAL"))
+    pool = None if serial else ProcessPoolExecutor(max_workers=workers)
+    try:
+        explored = [_explore(s) for s in specs] if serial else list(pool.map(_explore, specs))
+        # phase 2: solve all distinct queries
+        texts = {}
+        for r in explored:
+            for q in r["queries"]:
+                if not q["trivial"]:
+                    h = hashlib.sha1(q["smt2"].encode()).hexdigest()
+                    q["h"] = h
+                    texts.setdefault(h, q["smt2"])
+        keys = list(texts)
+        sols = [_solve(texts[k]) for k in keys] if serial else list(pool.map(_solve, [texts[k] for k in keys], chunksize=2))
+        sol = dict(zip(keys, sols))
+    finally:
+        if pool:
+            pool.shutdown()
+    for r in explored:
         fn = r.get("target", r["contract"])
         if r["error"]:
             report.ob(Ob(id=f"{r['oid']}/engine", function=fn, kind="P", status="error", detail="checker crash",
@@ -93,12 +145,42 @@ def run_contracts(report: Report, specs, workers=None):
             report.ob(Ob(id=f"{r['oid']}/subset", function=fn, kind="P", status="unknown",
                          detail="contract/code structural mismatch or construct outside the pyvc subset: " + r["unsupported"]))
             continue
-        if not r["obs"]:
-            report.ob(Ob(id=f"{r['oid']}/vacuity", function=fn, kind="P", status="unknown",
-                         detail="zero obligations generated"))
-        for a in r["obs"]:
-            report.ob(Ob(id=f"{r['oid']}/{a['name']}", function=fn, kind="P", status=a["status"], backend=a["backend"],
+        vac_paths = set()
+        for q in r["queries"]:
+            if q.get("vac") and sol[q["h"]][0] == "unsat":
+                vac_paths.add(q["path"])
+        agg = {}
+        for q in r["queries"]:
+            if q.get("vac"):
+                continue
+            a = agg.setdefault(q["name"], {"instances": 0, "status": "discharged", "ms": 0.0, "backend": set(), "model": None,
+                                           "detail": q["detail"], "vacuous": 0})
+            a["instances"] += 1
+            if q["trivial"]:
+                a["backend"].add("simplify")
+                continue
+            st, info, be, ms = sol[q["h"]]
+            a["ms"] += ms
+            a["backend"].add(be)
+            if st == "unsat":
+                if q["path"] in vac_paths:
+                    a["vacuous"] += 1
+            elif st == "sat":
+                a["status"] = "refuted"
+                if a["model"] is None:
+                    a["model"] = {"path": q["path"], "goal": q["goal"], "model": info}
+            elif a["status"] == "discharged":
+                a["status"] = "unknown"
+                a["model"] = str(info)[:300]
+        if not agg:
+            report.ob(Ob(id=f"{r['oid']}/vacuity", function=fn, kind="P", status="unknown", detail="zero obligations generated"))
+        for name, a in agg.items():
+            if a["status"] == "discharged" and a["vacuous"] == a["instances"] and a["instances"] > 0 and "simplify" not in a["backend"]:
+                a["status"] = "unknown"
+                a["model"] = "vacuous: hypotheses unsatisfiable on every path reaching this obligation"
+            report.ob(Ob(id=f"{r['oid']}/{name}", function=fn, kind="P", status=a["status"], backend="+".join(sorted(a["backend"])),
                          ms=a["ms"], where=r.get("where", ""),
-                         detail=f"{a['detail'] or a['name']} [{a['instances']} path instance(s)]", model=a["model"]))
-        report.extra.setdefault("pyvc_stats", {})[r["oid"]] = {**r["stats"], "wall_s": round(r.get("wall", 0), 2)}
-    return results
+                         detail=f"{a['detail'] or name} [{a['instances']} path instance(s)]", model=a["model"]))
+        report.extra.setdefault("pyvc_stats", {})[r["oid"]] = {**r["stats"], "explore_wall_s": round(r.get("wall", 0), 2),
+                                                               "queries": len(r["queries"])}
+    return explored
